@@ -39,6 +39,10 @@ var c10Projects = map[string]*project{
 	"S3": {Root: "{\n\t\"a\": 1, // {or: [{type: \"integer\"}, {type: \"@gone\", nullable: true}]}\n\t\"s\": @x | @y,\n\t\"b\": [\n\t\t2,\n\t\t3\n\t],\n\t\"c\": tru\n}"},
 	// fails in the rule loader inside an annotation, after an or rule registered its unnamed types
 	"S4": {Root: "{\n\t\"a\": 5, // {or: [{type: \"@missing\", nullable: true}, {type: \"string\"}]}\n\t\"b\": 2 // {min: 0, nosuchrule: 1}\n}"},
+	// a scalar root and a root that is a reference to a scalar type: the example is the
+	// literal as written
+	"S7": {Root: `"abc" // {minLength: 1}`},
+	"S8": {Root: "@lit", Types: map[string]string{"@lit": `"from type"`}},
 	// fails in the checker
 	"S5": {Root: "{\n\t\"a\": 1, // {min: 0}\n\t\"b\": @missing,\n\t\"c\": 2 // {min: 5}\n}"},
 }
@@ -80,6 +84,12 @@ func c10Alphabet() []c10Sym {
 	}
 	// "+write": the caller overwrites the bytes it was given (they are its own)
 	out = append(out, c10Sym{"S1", "Example+write"}, c10Sym{"S6", "Example+write"}, c10Sym{"S2", "Example+write"})
+	for _, o := range []string{"S7", "S8"} {
+		for _, op := range []string{"Example", "Example+write", "GetAST", "Check"} {
+			out = append(out, c10Sym{o, op})
+		}
+	}
+	out = append(out, c10Sym{"E1", "Values+write"}, c10Sym{"S1", "Used+write"})
 	for _, op := range []string{"Check", "Len", "Lexemes"} {
 		out = append(out, c10Sym{"D1", op})
 	}
@@ -128,7 +138,7 @@ func c10Exec(objs *c10Objects, sym c10Sym) (res c10Result) {
 	}
 	rec, site := guard(func() {
 		switch sym.Obj {
-		case "S1", "S2", "S3", "S4", "S5", "S6":
+		case "S1", "S2", "S3", "S4", "S5", "S6", "S7", "S8":
 			s := objs.s[sym.Obj]
 			var buildErr error
 			if s == nil {
@@ -183,6 +193,13 @@ func c10Exec(objs *c10Objects, sym c10Sym) (res c10Result) {
 			case "Used":
 				u, err := s.UsedUserTypes()
 				set(func() string { return strings.Join(u, ",") + "|" + errSnap(err) })
+			case "Used+write":
+				u, err := s.UsedUserTypes()
+				snap := strings.Join(u, ",") + "|" + errSnap(err)
+				for i := range u {
+					u[i] = "@overwritten"
+				}
+				set(func() string { return snap })
 			}
 		case "G":
 			t, err := schema.GuessSchemaType([]byte(sym.Op))
@@ -204,6 +221,17 @@ func c10Exec(objs *c10Objects, sym c10Sym) (res c10Result) {
 					}
 					return b.String() + "|" + errSnap(err)
 				})
+			case "Values+write":
+				v, err := objs.e.Values()
+				var b strings.Builder
+				for _, x := range v {
+					fmt.Fprintf(&b, "%s:%s:%q;", x.Type, x.Value.String(), x.Comment)
+				}
+				snap := b.String() + "|" + errSnap(err)
+				for i := range v {
+					v[i] = enum.Value{Comment: "overwritten"}
+				}
+				set(func() string { return snap })
 			case "Len":
 				l, err := objs.e.Len()
 				set(func() string { return fmt.Sprint(l) + "|" + errSnap(err) })
@@ -265,6 +293,11 @@ func c10Exec(objs *c10Objects, sym c10Sym) (res c10Result) {
 	})
 	if rec != nil {
 		msg := fmt.Sprintf("panic:%v@%s", rec, site)
+		res.snapshot, res.reread = msg, func() string { return msg }
+	}
+	if res.reread == nil {
+		// a symbol the executor does not know is a harness error, never a silent no-op
+		msg := "ENGINE: unknown symbol " + sym.String()
 		res.snapshot, res.reread = msg, func() string { return msg }
 	}
 	return res
